@@ -72,7 +72,7 @@ CHECKS = {
             'Trusted: scipy builds the documented cubic spline; Richardson extrapolation error model.',
             'DESIGN.md 4/C18'),
     'C17': (E3, 'fault_enumeration',
-            'failure-point enumeration on the real code: count pass, then one execution per failing evaluation k = 1..N for every target (Python API with counting/raising proxies and a recording sink, followed by a second write() on the same object; 6 exception classes; multi-MiB tables failing late); potable main() in-process with a formula leaving its domain at every row of every function; real subprocess runs)',
+            'failure-point enumeration on the real code: count pass, then one execution per failing evaluation k = 1..N for every target (Python API with counting/raising proxies and a recording sink, followed by a second write() on the same object; 14 exception classes incl. KeyboardInterrupt/SystemExit, proxies optionally inside a multi-range form; evaluations that RETURN a complex number or None; write-only and gzip sinks; multi-MiB tables failing late); potable main() in-process with a formula leaving its domain at every row of every function; real subprocess runs)',
             'All N crash points of every target are executed (N = 12..100 on the small grids used); the sink must have received nothing when write() raised, the named output file must be absent or empty, and a retry on the same object must be all-or-nothing.',
             'Failure model: an exception from a model callable / a formula outside its domain. OS-level faults (disk full, kill) are not modelled.',
             'DESIGN.md 4/C17'),
@@ -87,9 +87,9 @@ CHECKS = {
             'Relational oracle; command-line phase semantics as stated in the evidence assumptions; exact repetitions of one removal excluded.',
             'DESIGN.md 4/C14'),
     'C12': (E2, 'model_checking',
-            'stateless explicit-history exploration on the real code: every valid sequence (depth <= 4, thorough 5) of build / evaluate-probe / write operations over 8 models in one long-lived process, compared after every step with a pure reference obtained in a fresh process; environment dimension owned by seams: all 24 iteration orders of every library-built set (PermSet), fresh processes under 10 hash seeds for Configuration and for a potable command line with repeated options, frozen clock for xlsx',
+            'stateless explicit-history exploration on the real code: every valid sequence (depth <= 4, thorough 5) of build / evaluate-probe / write operations over 8 models in one long-lived process, compared after every step with a pure reference obtained in a fresh process; environment dimension owned by seams: all 24 iteration orders of every library-built set (PermSet), fresh processes under 10 hash seeds for Configuration and for a potable command line with repeated options, frozen clock for xlsx; sequences of tabulations re-using one set of API objects and of potable runs into one OUTPUT_FILE; schedule exploration with real threads under a cooperative scheduler (two tabulations at once: every schedule with <= 2 pre-emptions at function evaluations; one pre-emption at every traced line of the library, also with both threads writing one tabulation object)',
             'Every history is an implementation run; any dependence of bytes or probe values on earlier builds, evaluations or writes, on set iteration order or on the hash seed is a difference from the fresh-process reference.',
-            'Seams are harness-side patches (mc/seams.py). Bounded: 8 models, depth <= 5; sets built outside the four seam modules are covered by the hash-seed runs only. Known finding F03 (xlsx time stamps) is listed in known_findings.json.',
+            'Seams are harness-side patches (mc/seams.py). Bounded: 8 models, depth <= 5; sets built outside the four seam modules are covered by the hash-seed runs only; thread schedules: code between two scheduling points (function evaluations / traced library lines) is atomic in the model. Known finding F03 (xlsx time stamps) is listed in known_findings.json.',
             'DESIGN.md 4/C12'),
     'C15': (E1, 'exploration',
             'exhaustive enumeration on the real code of every subset of liftable literals of 5 base models x variable-naming styles (neutral, names of [Tabulation] keys set / not set by the file, names of keys of other sections) x unused extra variables x direct / nested placeholders (${NAME} through another variable, ${SECTION:KEY} whose target holds a placeholder); relational oracle against the literally substituted file',
